@@ -28,23 +28,26 @@ func parseClampedInt(in string, defaultValue, min, max int64) (int64, error) {
 }
 
 // ReadAll is a fakeS3-centric replacement for ioutil.ReadAll(), for use when
-// the size of the result is known ahead of time. It is considerably faster to
-// preallocate the entire slice than to allow growslice to be triggered
-// repeatedly, especially with larger buffers.
+// the size of the result has been declared ahead of time: it reads exactly
+// size bytes and requires the input to end there.
 //
 // It also reports S3-specific errors in certain conditions, like
 // ErrIncompleteBody.
 func ReadAll(r io.Reader, size int64) (b []byte, err error) {
-	var n int
-	b = make([]byte, size)
-	n, err = io.ReadFull(r, b)
+	// The declared size comes from the client: the buffer grows with the
+	// bytes that actually arrive rather than being allocated up front (a
+	// negative or absurdly large size used to panic in make).
+	if size < 0 {
+		return nil, ErrIncompleteBody
+	}
+	b, err = ioutil.ReadAll(io.LimitReader(r, size))
 	if err == io.ErrUnexpectedEOF {
 		return nil, ErrIncompleteBody
 	} else if err != nil {
 		return nil, err
 	}
 
-	if n != int(size) {
+	if int64(len(b)) != size {
 		return nil, ErrIncompleteBody
 	}
 
